@@ -182,6 +182,9 @@ AWKWARD_TEXTS = [t.encode() for t in ("\ufeffKids", "K\ufeffid", "u\u0308ber", "
 def text_payload(mod, rng):
     """a well-formed names / ability / error-text / version payload carrying one of the awkward texts, or None for other modules"""
     t = rng.choice(AWKWARD_TEXTS)
+    if mod.key in ("FF13", "FF10", "FF30") and rng.random() < 0.25:
+        # fields with a length byte carry their text as it is: trailing (or lone) NUL characters are part of it, not padding
+        t = rng.choice([b"Den\x00\x00", b"\x00", b"a\x00", t + b"\x00"])
     if mod.key == "FF12" and len(t) <= 8:
         return bytes([rng.randrange(16)]) + t.ljust(8, b"\0")
     if mod.key == "FF11" and len(t) <= 16:
